@@ -9,10 +9,12 @@ EXTENDS FilterSync, Json, IOUtils
 
 Rec == ndJsonDeserialize(IOEnv.TRACE)
 VARIABLE l
+\* C17: the experiment under way -- the state its runs start from and the outcomes of its serial runs
+VARIABLES expPre, expOut
 
 ToSet(s) == {s[i] : i \in DOMAIN s}
 AllowIds == IF "ALLOW" \in DOMAIN IOEnv THEN IOEnv.ALLOW ELSE ""
-KnownIds == {"KF-C05-notlonger", "KF-C09-rollback-number", "KF-C16-txheight", "KF-C06-blockhash"}
+KnownIds == {"KF-C05-notlonger", "KF-C09-rollback-number", "KF-C16-txheight", "KF-C06-blockhash", "KF-C03-stale-before-start"}
 Allow == {id \in KnownIds : \E i \in 1..(Len(AllowIds) - Len(id) + 1) : SubSeq(AllowIds, i, i + Len(id) - 1) = id}
 Prop == IF "PROP" \in DOMAIN IOEnv THEN IOEnv.PROP ELSE "C03"
 
@@ -195,7 +197,27 @@ CpVectors(r) ==
       [] r.ev \in {"Restart", "Crash"} -> \A p \in PeerNames : pf'[p].cps = <<0, <<>> >>
       [] OTHER -> CpOnlyChange({})
 
+\* what C17 compares: script set, filter progress, pending matched blocks, index contents, and the proof state
+Core == [scripts |-> scripts, minF |-> minF, mdb |-> mdb, mmem |-> mmem, cells |-> cells, hist |-> hist,
+         txs |-> txs, hdrs |-> hdrs, nums |-> nums, cpFinal |-> cpFinal,
+         tip |-> tip, tipTD |-> tipTD, lastN |-> lastN,
+         proved |-> [p \in PeerNames |-> <<peer[p].proved, peer[p].pLastN>>]]
+
+RECURSIVE CapSum(_)
+CapSum(S) == IF S = {} THEN 0 ELSE LET e == CHOOSE x \in S : TRUE IN TxOf(world, e[5]).outs[e[4] + 1][3] + CapSum(S \ {e})
+
+ExpStep(r) ==
+    CASE r.ev = "ExpPre" ->
+            /\ UNCHANGED psCore /\ PipeUnchanged
+            /\ IF r.a.idx = 0 THEN expPre' = Core' /\ expOut' = {}
+               ELSE Core' = expPre /\ UNCHANGED <<expPre, expOut>>      \* every run of the experiment starts from the same state
+      [] r.ev = "ExpSerial" ->
+            /\ UNCHANGED psCore /\ PipeUnchanged
+            /\ expOut' = expOut \cup {Core'} /\ UNCHANGED expPre
+
 TraceInit ==
+    /\ TLCSet(43, 0)
+    /\ expPre = <<>> /\ expOut = {}
     /\ l = 1
     /\ LET r == Rec[1] IN
        /\ world = r.world /\ cfg = CfgOf(r)
@@ -214,24 +236,36 @@ TraceNext ==
     /\ LET r == Rec[l + 1] IN
        IF r.ev = "Reset"
        THEN /\ world' = r.world /\ cfg' = CfgOf(r) /\ LoadPs(r) /\ LoadFs(r) /\ startOf' = <<>> /\ over' = {} /\ subst' = {}
-       ELSE /\ r.ev # "DeadStore"     \* C08: a store that aborts on every start is never a step
+            /\ UNCHANGED <<expPre, expOut>>
+       ELSE IF r.ev = "Concurrent"
+       THEN \* C17: two operations ran on two threads; what they left is what one of the two serial orders leaves
+            /\ UNCHANGED <<world, cfg, startOf, over, subst, expPre, expOut>> /\ LoadPs(r) /\ LoadFs(r)
+            /\ Core' \in expOut
+            \* a reader that took its snapshot before the writer ran reports the index AND the tip of that moment
+            /\ r.a.a = "Read" =>
+                 /\ r.a.rd.tip = expPre.tip /\ r.a.rd.tipNum = Num(world, expPre.tip)
+                 /\ r.a.rd.cap = CapSum({e \in expPre.cells : e[1] = r.a.rd.sk})
+       ELSE IF r.ev \in {"ExpPre", "ExpSerial"}
+       THEN UNCHANGED <<world, cfg>> /\ LoadPs(r) /\ LoadFs(r) /\ ExpStep(r)
+       ELSE /\ UNCHANGED <<expPre, expOut>>
+            /\ r.ev # "DeadStore"     \* C08: a store that aborts on every start is never a step
             /\ UNCHANGED <<world, cfg>> /\ LoadPs(r) /\ LoadFs(r) /\ Step(r)
             /\ CpAppendOnly                \* C07: at every step, crashes included
             /\ CpTrue
             /\ CpVectors(r)
 
-TraceSpec == TraceInit /\ [][TraceNext]_<<l, allVars>>
+TraceSpec == TraceInit /\ [][TraceNext]_<<l, allVars, expPre, expOut>>
 
 StepProps ==
-    /\ (Rec[l'].ev \notin {"Reset", "Crash"}) =>
+    /\ (Rec[l'].ev \notin {"Reset", "Crash", "Concurrent"}) =>
           /\ TipOnlyHeavier /\ PeerDiagram /\ ProofOnlyWhenRequested /\ LastStateKeepsProof
 
-TraceProps == [][StepProps]_<<l, allVars>>
-IndexChanged == Rec[l'].ev = "Crash" \/ cells' # cells \/ hist' # hist \/ scripts' # scripts \/ tip' # tip \/ startOf' # startOf \/ world' # world
-P_CellsSound == [][(IndexChanged /\ ~Tainted') => CellsSound']_<<l, allVars>>
-P_HistOnCanon == [][(IndexChanged /\ ~Tainted') => HistOnCanon']_<<l, allVars>>
-P_ScriptsNumberHonest == [][(IndexChanged /\ ~Tainted') => ScriptsNumberHonest']_<<l, allVars>>
-P_PeerSync == [][(Rec[l'].ev \notin {"Reset", "Crash"}) => (TipOnlyHeavier /\ PeerDiagram /\ ProofOnlyWhenRequested /\ LastStateKeepsProof)]_<<l, allVars>>
+TraceProps == [][StepProps]_<<l, allVars, expPre, expOut>>
+IndexChanged == Rec[l'].ev # "Concurrent" /\ (Rec[l'].ev = "Crash" \/ cells' # cells \/ hist' # hist \/ scripts' # scripts \/ tip' # tip \/ startOf' # startOf \/ world' # world)
+P_CellsSound == [][(IndexChanged /\ ~Tainted') => CellsSound']_<<l, allVars, expPre, expOut>>
+P_HistOnCanon == [][(IndexChanged /\ ~Tainted') => HistOnCanon']_<<l, allVars, expPre, expOut>>
+P_ScriptsNumberHonest == [][(IndexChanged /\ ~Tainted') => ScriptsNumberHonest']_<<l, allVars, expPre, expOut>>
+P_PeerSync == [][(Rec[l'].ev \notin {"Reset", "Crash", "Concurrent"}) => (TipOnlyHeavier /\ PeerDiagram /\ ProofOnlyWhenRequested /\ LastStateKeepsProof)]_<<l, allVars, expPre, expOut>>
 
 TraceInv ==
     /\ TypeOK /\ LastNAncestors /\ ProvedAreValid
